@@ -224,4 +224,17 @@ theorem C19_list_printer_generated (D : Desc) (s : St) (x : List Byte) :
     cmdListNextCmd D s = Gen.cmd_list_next_cmd D s :=
   ⟨printCmdList_generated D s, printCurrentCmdFullName_generated D s x, cmdListNextCmd_generated D s⟩
 
+/-- the counters this property's theorems keep as unbounded natural numbers (`var_num`, `cmd_group_num`, `cmd_num`, `commands_num`, `index`, `position`, `index`, `position`) are declared
+`size_t` in `cat.h` — 64 bits on the target, so they cannot wrap on any buffer, table or line that exists; the widths
+are read from the struct declarations on every run (translator item T21) -/
+theorem C19_counters_unbounded :
+    Gen.width_cmd_var_num = 64 ∧
+    Gen.width_desc_cmd_group_num = 64 ∧
+    Gen.width_group_cmd_num = 64 ∧
+    Gen.width_obj_commands_num = 64 ∧
+    Gen.width_obj_index = 64 ∧
+    Gen.width_obj_position = 64 ∧
+    Gen.width_uns_index = 64 ∧
+    Gen.width_uns_position = 64 := by decide
+
 end Cat
